@@ -519,6 +519,178 @@ func oracles(r *vx.Run, in nsx.Input, ast *nsx.Script, ob runObs) {
 		k2 := p.Destination + "\x00" + p.Asset
 		running[k2] = new(big.Int).Add(get(p.Destination, p.Asset), amt)
 	}
+	perSendFloor(r, in, ast, ob, size)
+}
+
+// ---- C01, the floor per send statement (Coq: C01_floor_per_send, Properties/C01_per_send.v) -------------------
+// The theorem: cut the postings of an accepted run into one group per statement; a posting of the group of a send takes
+// at most max 0 (balance when reached, all earlier postings of the whole script applied + the overdraft granted by the
+// clauses written in THAT send). The machine's output does not carry the grouping, so this oracle judges only scripts for
+// which the grouping can be recomputed from the source text: every send is `send [ASSET n]` with literal asset and
+// amount, literal source accounts and literal overdraft bounds, and keeps nothing back. Such a send moves exactly n of
+// ASSET (conservation, C03), and all of its postings are in ASSET (OP_TAKE checks the asset), so the posting list is cut
+// by cumulative amount. Postings of amount 0 can be attributed to either neighbour: they pass any floor and move nothing.
+type sendGrants struct {
+	asset  string
+	amount *big.Int
+	unb    map[string]bool     // account named with `allowing unbounded overdraft` in this send
+	upto   map[string]*big.Int // account \x00 asset of the bound -> largest `overdraft up to` in this send
+}
+
+func literalSend(st nsx.Stmt) (g sendGrants, ok bool) {
+	if st.K != "send" || st.All != nil || st.Mon == nil || st.Mon.K != "mon" || st.Mon.Asset == nil || st.Mon.Asset.K != "asset" ||
+		st.Src == nil || st.Dest == nil || leavesLeftover(nsx.Kod{D: st.Dest}) {
+		return g, false
+	}
+	n, okn := new(big.Int).SetString(st.Mon.Text, 10)
+	if !okn || n.Sign() < 0 {
+		return g, false
+	}
+	g = sendGrants{asset: st.Mon.Asset.Text, amount: n, unb: map[string]bool{}, upto: map[string]*big.Int{}}
+	var walk func(s *nsx.Source) bool
+	walk = func(s *nsx.Source) bool {
+		if s == nil {
+			return false
+		}
+		switch s.K {
+		case "account":
+			if s.Acc == nil || s.Acc.K != "acc" {
+				return false
+			}
+			switch s.Ov {
+			case "unbounded":
+				g.unb[s.Acc.Text] = true
+			case "specific":
+				if s.OvE == nil || s.OvE.K != "mon" || s.OvE.Asset == nil || s.OvE.Asset.K != "asset" {
+					return false
+				}
+				m, okm := new(big.Int).SetString(s.OvE.Text, 10)
+				if !okm {
+					return false
+				}
+				k := s.Acc.Text + "\x00" + s.OvE.Asset.Text
+				if cur, have := g.upto[k]; !have || cur.Cmp(m) < 0 {
+					g.upto[k] = m
+				}
+			}
+			return true
+		case "maxed":
+			return walk(s.Src)
+		case "inorder":
+			for _, x := range s.Srcs {
+				if !walk(x) {
+					return false
+				}
+			}
+			return true
+		}
+		return false
+	}
+	if st.Src.Src != nil {
+		if !walk(st.Src.Src) {
+			return g, false
+		}
+	}
+	for _, a := range st.Src.Allot {
+		if !walk(a.S) {
+			return g, false
+		}
+	}
+	return g, true
+}
+
+func perSendFloor(r *vx.Run, in nsx.Input, ast *nsx.Script, ob runObs, size int) {
+	var sends []sendGrants
+	var stmtNo []int
+	for i, st := range ast.Stmts {
+		switch st.K {
+		case "send":
+			g, ok := literalSend(st)
+			if !ok {
+				return
+			}
+			sends = append(sends, g)
+			stmtNo = append(stmtNo, i+1)
+		case "fail":
+			return
+		}
+		// print / save / metadata statements append no posting (proved: the group of a non-send statement is empty)
+	}
+	if len(sends) == 0 {
+		return
+	}
+	// pass 1: cut. group[i] = index into sends of the send posting i belongs to (-1: amount 0, not attributed)
+	group := make([]int, len(ob.Postings))
+	pos := 0
+	for j, g := range sends {
+		moved := new(big.Int)
+		for moved.Cmp(g.amount) < 0 {
+			if pos >= len(ob.Postings) {
+				return // the postings do not add up to the stated amounts: conservation's business (C03), no grouping
+			}
+			p := ob.Postings[pos]
+			amt := (*big.Int)(p.Amount)
+			switch {
+			case amt.Sign() < 0:
+				return
+			case amt.Sign() == 0:
+				group[pos] = -1
+			default:
+				if p.Asset != g.asset {
+					return
+				}
+				moved.Add(moved, amt)
+				if moved.Cmp(g.amount) > 0 {
+					return
+				}
+				group[pos] = j
+			}
+			pos++
+		}
+	}
+	for ; pos < len(ob.Postings); pos++ {
+		if (*big.Int)(ob.Postings[pos].Amount).Sign() != 0 {
+			return
+		}
+		group[pos] = -1
+	}
+	// pass 2: replay on the store balances with the grants of the posting's own send
+	running := map[string]*big.Int{}
+	get := func(a, s string) *big.Int {
+		k := a + "\x00" + s
+		if v, ok := running[k]; ok {
+			return v
+		}
+		b := big.NewInt(0)
+		if m, ok := in.Balances[a]; ok {
+			if v, ok := m[s]; ok {
+				b, _ = new(big.Int).SetString(v, 10)
+			}
+		}
+		running[k] = b
+		return b
+	}
+	for i, p := range ob.Postings {
+		amt := (*big.Int)(p.Amount)
+		if j := group[i]; j >= 0 && p.Source != "world" && !sends[j].unb[p.Source] {
+			bal := get(p.Source, p.Asset)
+			granted := big.NewInt(0)
+			if g, ok := sends[j].upto[p.Source+"\x00"+p.Asset]; ok && g.Sign() > 0 {
+				granted = g
+			}
+			avail := new(big.Int).Add(bal, granted)
+			if avail.Sign() < 0 {
+				avail = big.NewInt(0)
+			}
+			if amt.Cmp(avail) > 0 {
+				r.FailP("C01", "overdraw:per-send", in, fmt.Sprintf("statement %d (send [%s %s]): posting %d takes %s %s from %s, whose balance at that point (store balance and all earlier postings of the script replayed) is %s and to which this send grants an overdraft of %s: at most %s may be taken",
+					stmtNo[j], sends[j].asset, sends[j].amount, i, amt, p.Asset, p.Source, bal, granted, avail), size)
+				return
+			}
+		}
+		running[p.Source+"\x00"+p.Asset] = new(big.Int).Sub(get(p.Source, p.Asset), amt)
+		running[p.Destination+"\x00"+p.Asset] = new(big.Int).Add(get(p.Destination, p.Asset), amt)
+	}
 }
 
 // statedTotals: per asset, the sum of the literal amounts of the sends, when every send is `send [ASSET n]` with a
